@@ -334,6 +334,10 @@ class Dict(dict, base.Symbolic, pg_typing.CustomTyping):
           allow_partial=base.accepts_partial(self),
           child_transform=base.symbolic_transform_fn(self._allow_partial),
           root_path=self.sym_path)
+      if self._value_spec is None:
+        # NOTE: `custom_apply` does not bind a spec that has a user transform
+        # (its transform-free twin validates the transformed value).
+        self._value_spec = value_spec
     else:
       self._value_spec = value_spec
     return self
@@ -639,6 +643,12 @@ class Dict(dict, base.Symbolic, pg_typing.CustomTyping):
       except BaseException:
         base.restore_typing_state(before)
         raise
+      if (field.value.frozen and isinstance(value, base.Symbolic)
+          and value is field.value.default):
+        # NOTE: a frozen field hands out its default object itself; a dict /
+        # list is stored as a copy, so that writing into the stored value does
+        # not change the frozen value of the schema (and of every instance).
+        value = copy.deepcopy(value)
     return self._relocate_if_symbolic(name, value)
 
   @property
@@ -1003,6 +1013,7 @@ class Dict(dict, base.Symbolic, pg_typing.CustomTyping):
               utils.message_on_path(
                   f'Dict {self!r} is not fully bound.', path))
         self._allow_partial = allow_partial
+        base.set_allow_partial_below(self, allow_partial)
     elif isinstance(value_spec, pg_typing.Dict):
       # NOTE: a field with a user transform applies its transform-free twin to
       # the transformed value (`skip_user_transform`); binding the spec in this
